@@ -51,6 +51,9 @@ CHECKS = {
  "C18": dict(engine="mirsmt", technique="SMT decision tables (z3 cross-checked by cvc5) generated from the MIR of HttpListeningExporter::check_tcp_allowed (+closures), the compiler-generated state machine of handle_http_request, and PrometheusBuilder::add_allowed_address; counterexamples replayed against a real scrape endpoint (raw HTTP/1.1 from chosen 127.0.0.0/8 source addresses)",
     text="allowlist None or 0..3 networks, any peer address: served iff no allowlist or the peer lies in some listed network (unknown peer refused); a refused peer gets 403 with the default empty body and PrometheusHandle::render is never called for it; /health returns 'OK', every other path the value of render() for this request; add_allowed_address accepts plain addresses and CIDR subnets and rejects anything else",
     note="reduced claim: hyper/tokio (request parsing, garbage/half-open/reset connections, concurrent scrapers, the bytes on the wire) are NOT covered; IpNet::contains / from_str by their documented contracts", ref="§4 C18"),
+ "C08": dict(engine="mirsmt", technique="SMT over a character-level encoding generated from the MIR of sanitize_metric_name/sanitize_label_key/sanitize_label_value/sanitize_description, key_to_parts, write_help_line/write_type_line/write_metric_line and Inner::render; the oracle is a strict exposition-format parser run as a symbolic automaton over the produced characters; counterexamples replayed natively against an independent strict parser",
+    text="every string of the stated length (each character any Unicode scalar value) as name, label key, label value and description; every Unit; unit suffix on/off; described or not; counter, gauge, histogram and summary families: names match the grammar, values/help text are escaped, every line is a HELP/TYPE/sample/blank line, one TYPE per family before its samples, sample names are the family name plus an allowed suffix (K5 known)",
+    note="bounded string lengths (names <= 3-4, values <= 4-5 characters, 1-character label parts in key_to_parts); one family with one label set per render scenario; Display text of numbers is an opaque token; get_recent_metrics, the description map and hash-map iteration order are modelled (concrete shape, symbolic content)", ref="§4 C08"),
 }
 NA = {}
 ids = [json.loads(l)["id"] for l in open(os.path.join(V, "properties.jsonl"))]
